@@ -582,10 +582,16 @@ def is_in_polygon(polygon, points, ncaps=0):
     usencaps = p['ncaps']
     if ncaps > 0:
         usencaps = min(ncaps, p['ncaps'])
+    #
+    # A FITS table whose polygons have at most one cap stores XCAPS as a
+    # 3-vector and CMCAPS as a scalar.
+    #
+    x = np.atleast_2d(p['x'])
+    cm = np.atleast_1d(p['cm'])
     in_polygon = np.ones((npoints,), dtype=bool)
     for icap in range(usencaps):
         if is_cap_used(p['use_caps'], icap):
-            in_polygon &= is_in_cap(p['x'][icap, :], p['cm'][icap], points)
+            in_polygon &= is_in_cap(x[icap, :], cm[icap], points)
     return in_polygon
 
 
